@@ -209,3 +209,6 @@ _ext("C16", "Since session 6 the premise parse(fmt v) = v is itself derived in L
      "the premise that '%.16e' text is read back bit-exactly by NumPy/libc is outside the theorems and is checked on every value written",
      "the two correct-rounding contracts of printf('%.16e') and the strtod-based reader (nearest 17-digit decimal / nearest double) are outside the theorems and are "
      "checked exactly on every value written")
+_ext("C03", "Since session 6 the Kruskal right-hand sides are modelled as coded and proved too (C03_div_kruskal, C03_div_kruskal_xrat, C03_rmul_kruskal, the reject theorems; "
+     "C03_div_kruskal_dense says when the coded quotient is the dense one, a decided counterexample shows when it is not - outside the letter of the property, noted in FINDINGS) "
+     "with a kruskal_rhs family (75 theorems)")
